@@ -752,3 +752,8 @@ bit_array_impl!(
         }
     }
 );
+
+#[cfg(kani)]
+mod verif_kani {
+    include!(concat!(env!("IPA_VERIF_DIR"), "/kani/galois_field.rs"));
+}
